@@ -20,7 +20,8 @@ RULE = ("Episodes = template net (example_multivoltage / feeder variants / case9
         "controllers, tap characteristic table, result tables of a power flow) + 10-35 seeded creation and toolbox "
         "edits; the referential-integrity invariant is evaluated after every op that returns. Non-trivial = an edit "
         "returned and the invariant was evaluated on a net that still holds references; distinct = distinct "
-        "(operation family, set of reference kinds present, template).")
+        "(operation family, set of reference kinds present, template)."
+        ' All toolbox edit functions incl. drop_elements_simple, drop_*_at_*, drop_duplicated_measurements, drop_inner_branches, merge_parallel_line, merge_same_bus_generation_plants, repl_to_line, drop_group_and_elements; option variants (fuse_bus_measurements, keep_everything_else, include_switch_buses); overlapping reindex lookups; creation calls with missing references (must be refused); short-circuit result tables present; the state left behind by a refused operation is checked too.')
 COMPONENTS = {"real": ["pandapower create functions and toolbox (drop_*, fuse_buses, select_subnet, merge_nets, "
                        "reindex_*, create_continuous_*_index, replace_*)", "runpp for result tables"],
               "stub": ["RefIntegrity (list of reference columns and what they must point to)"]}
